@@ -68,6 +68,7 @@ def run(ctx):
     ctx.rule("R15.11", "every loop of the preprocessor that consumes tokens can only go round while a test implying `not at end of input` holds (_state != S_eof, !token.is_eof(), token._token == <a real token>)")
     ctx.rule("R15.12", "the parser entry points (parse_cpp, parse_const_expr, parse_type) install current_lexer before yyparse and restore the previous one last: nothing that reports through current_lexer (yyerror/yywarning, which dereference it) is reachable after the restoring assignment")
     ctx.rule("R15.13", "grammar statics that name the class / enum under construction are stacked: every `current_X = new ...` in the parser's actions is preceded by a push of the previous value and the construct's end pops it back; none is reset to nullptr (a nested definition would orphan the enclosing one)")
+    ctx.rule("R15.14", "a CPPStructType predicate that recurses into the types of the class's members (the containment graph, which invalid input can make cyclic: `class P { P m; };`) carries a recursion guard")
     ctx.rule("R15.7", "macro expansion excludes the macro being expanded: nested_ignores.insert(manifest) before the recursive expansion; the pushed expansion suppresses its own macro")
 
     # ------------------------------------------------------------ R15.1
@@ -193,6 +194,7 @@ def run(ctx):
     ctx.info("R15.2: %d position arguments that are loop indices / find() results were enumerated, not judged" % n_not)
 
     scanner_loops(ctx)
+    containment_recursion(ctx)
     construction_stacks(ctx)
     lexer_restore_order(ctx)
     token_loops(ctx)
@@ -908,4 +910,32 @@ def construction_stacks(ctx):
             ctx.ob("R15.13", "%s|pushed-before-replaced" % gname, ok, f.loc(x), "`%s` is %spreceded by a push of the previous %s" % (show(x)[:50], "" if ok else "NOT ", gname))
         ctx.ob("R15.13", "%s|popped-at-end" % gname, bool(pops), fns[0].loc(), "%d place(s) restore %s from the stack" % (len(pops), gname))
     ctx.floor("R15.13", "sites starting a class/enum definition", n, 3)
+
+
+
+
+def containment_recursion(ctx):
+    """R15.14: cppparser does not check that a member's type is complete, so `class P { __published: P m; };` (or two
+    classes containing each other) builds a cyclic containment graph.  A predicate that calls itself on each member's
+    type then recurses until the stack overflows.  (Base-class recursion is not judged: a class is only entered in
+    _derivation by the grammar once its name resolves to an earlier definition.)"""
+    db = ctx.db
+    n = 0
+    for f in db.methods_of("CPPStructType"):
+        short = f.name.split("::")[-1]
+        rec = []
+        for c in f.walk():
+            if c.get("k") == "call" and callee_short(c) == short and "this" in c:
+                t = strip_casts(peel(c["this"]))
+                # through a member instance's type: <instance>->_type->short()
+                if t is not None and any(x.get("k") == "mem" and x.get("n", "").endswith("CPPInstance::_type") for x in walk(t)):
+                    rec.append(c)
+        if not rec:
+            continue
+        n += 1
+        guards = [x for x in f.walk() if assigned_target(x) and (field_of(assigned_target(x)[0]) or "").startswith("CPPStructType::") and "protect" in (field_of(assigned_target(x)[0]) or "")]
+        ok = bool(guards)
+        ctx.ob("R15.14", "%s|recursion-guard" % f.name, ok, f.loc(rec[0]),
+               "%s() calls itself on every member's type %s a recursion guard" % (short, "behind" if ok else "WITHOUT"))
+    ctx.floor("R15.14", "predicates recursing over member types", n, 5)
 
